@@ -158,11 +158,13 @@ def translate(cfg, outdir):
     em.lifted_new = set()
     units = cfg["units"]
 
-    def fetch(u):
-        return astq.query(u["tu"], u["name"])
-
+    # optional per-unit key "filter": the substring handed to clang's -ast-dump-filter (default: the unit's name).
+    # Units of one TU that share a filter (e.g. "xbt_dynar") are read from ONE clang run; the unit's definition is
+    # still selected by its exact name below.
+    keys = sorted(set((u["tu"], u.get("filter", u["name"])) for u in units))
     with ThreadPoolExecutor(max_workers=int(os.environ.get("VF_JOBS", "8"))) as ex:
-        asts = list(ex.map(fetch, units))
+        fetched = dict(zip(keys, ex.map(lambda k: astq.query(k[0], k[1]), keys)))
+    asts = [fetched[(u["tu"], u.get("filter", u["name"]))] for u in units]
     texts, meta = [], []
 
     def emit_unit(u, objs, accessor_only=False):
